@@ -12,9 +12,9 @@ use num::{Signed, ToPrimitive};
 
 pub struct C11;
 
-pub const TOKENS: [&str; 44] = [
+pub const TOKENS: [&str; 46] = [
     "0", "1", "2", "10", "0.5", ".5", "1.", "1e3", "1e999", "-1", "+2", "99", "m", "km", "s", "kg", "N", "J", "°C", "°F", "K", "c", "g", "to", "foo", "population", "finland", "round", "floor", "ceil", "sin", "+", "-",
-    "*", "/", "^", "**", "%", ",", "(", ")", "{", "}", "1e-999",
+    "*", "/", "^", "**", "%", ",", "(", ")", "{", "}", "1e-999", "-273.15", "-459.67",
 ];
 
 const STRUCT_TOKENS: [&str; 12] = ["1", "99", "m", "to", "+", "/", "^", "(", ")", ",", "round", "°C"];
@@ -23,7 +23,8 @@ pub const UNI: [&str; 30] = [
     "0", "9", "e", "m", "t", "o", ".", "+", "-", "*", "/", "^", "%", "(", ")", ",", "{", "}", " ", "\t", "\u{a0}", "\u{2003}", "°", "é", "Ω", "€", "😀", "\u{301}", "\0", "'",
 ];
 
-const SEEDS: [&str; 60] = [
+const SEEDS: [&str; 66] = [
+    "1 K / -273.15°C", "10 J / -273.15 °C", "1 m / -459.67°F", "3 * (2 kg / (1°C - 274.15°C)) to kg/K", "1 / (0 °C to K)", "2 m / (1 km - 1000 m)",
     "3dl to m^3", "1000Gbtu to MWh", "population finland / population world", "32500 / round(population finland)", "3N / 10kg",
     "0.05c / 500 years * mass of earth to N", "(0.05c to m/s) / (500years to seconds) * mass of earth to N", "1s + 59s to min", "1 newton^2 second / 1 second", "10km / 10km/s",
     "1V^3 / 1V^10", "1Wb*V * 1V", "(1lb / 7000) to gr", "round(1.234, 2)", "floor(-1.5 km)",
